@@ -38,6 +38,12 @@ def handle(kind, payload):
     doc = payload.get('doc')
     if doc is None:
       doc = mod.generate(payload['rseed'], payload.get('tier', 'quick'))
+    # the library's validate() draws test data from numpy's global generator when given none:
+    # that source of nondeterminism belongs to the simulator, so seed it from the run seed
+    import random
+    import numpy as np
+    np.random.seed(int(doc.get('run_seed', 0)) % (2**32))
+    random.seed(int(doc.get('run_seed', 0)))
     res = mod.execute(doc)
     res['doc'] = doc
     return res
